@@ -2,6 +2,7 @@
 import re
 
 from .. import ast as A
+from .. import effects as E
 
 GUI = "fidget-gui/src/lib.rs"
 
@@ -23,13 +24,23 @@ def field_writes(fn):
             tgt = n["left"]
         elif n.get("k") == "Binary" and n["op"] in ("+=", "-=", "*=", "/=", "%="):
             tgt = n["left"]
+        if n.get("k") == "Call" and (A.path_segs(n["func"]) or [])[-2:] in (["mem", "replace"], ["mem", "swap"], ["mem", "take"]) and n["args"]:
+            # writes through `&mut self.field`
+            a0 = n["args"][0]
+            if a0.get("k") == "Ref" and a0.get("mut"):
+                tgt = a0["e"]
+        if n.get("k") == "Ref" and n.get("mut") and tgt is None:
+            # any other `&mut self.field` handed out: counted as a possible write
+            r0 = A.strip(n["e"])
+            if r0.get("k") == "Field" and A.ident(A.strip(r0["e"])) == "self":
+                tgt = n["e"]
         if tgt is not None:
             t = A.strip(tgt)
             while t.get("k") in ("Field", "Index") and not (t.get("k") == "Field" and A.ident(A.strip(t["e"])) == "self"):
                 t = A.strip(t["e"])
             if t.get("k") == "Field" and A.ident(A.strip(t["e"])) == "self":
                 out.append(t["member"])
-    return out
+    return sorted(set(out), key=out.index)
 
 
 def _factors(e):
@@ -93,7 +104,10 @@ def r3_changed_flags(rule, root=None):
     for ty in ("View2", "View3"):
         fn = vfn(ty, "translate", root)
         t = txt(fn["body"])
-        if t == "{letnext_center=h.center(pos);letchanged=(next_center!=self.center);self.center=next_center;changed}":
+        sm = E.summary(fn)
+        wr = [(x[2], x[3]) for x in sm if x[0] == "write" and not x[1]]
+        rt = [x[2] for x in sm if x[0] == "return" and not x[1]]
+        if wr == [("self.center", "h.center(pos)")] and rt == ["(h.center(pos)!=self.center)"] and len(sm) == 2:
             rule.ok("%s::translate reports changed iff the new centre differs from the old one (compared before the assignment)" % ty, file=GUI, line=fn["ln"])
         else:
             rule.bad("%s|translate|changed" % ty, "%s::translate must compute `changed` from the old centre before assigning the value it compares" % ty, A.where(fn))
@@ -105,6 +119,14 @@ def r3_changed_flags(rule, root=None):
             rule.bad("%s|zoom|changed" % ty, "%s::zoom must report `amount != 1.0`" % ty, A.where(fn))
     fn = vfn("View3", "rotate", root)
     why = _rotate_problem(fn)
+    if why is not None:
+        # the same facts on the effect summary: both fields written from their own handle method, and the
+        # result is (new yaw != old yaw) || (new pitch != old pitch) - in any equivalent boolean spelling
+        sm = E.summary(fn)
+        wr = sorted((x[2], x[3]) for x in sm if x[0] == "write" and not x[1])
+        rt = [x[2] for x in sm if x[0] == "return" and not x[1]]
+        if wr == [("self.pitch", "h.pitch(pos.y)"), ("self.yaw", "h.yaw(pos.x)")] and rt == ["((h.pitch(pos.y)!=self.pitch)||(h.yaw(pos.x)!=self.yaw))"] and len(sm) == 3:
+            why = None
     if why is None:
         rule.ok("View3::rotate: yaw from x, pitch from y, changed computed before the assignments", file=GUI, line=fn["ln"])
     else:
@@ -212,13 +234,19 @@ def _zoom_ok(fn):
 def r5_handles(rule, root=None):
     fn = A.find_fn(GUI, "yaw", self_ty="RotateHandle", root=root)
     t = txt(fn["body"])
-    if t == "{((self.initial_yaw+((self.start.x-x)*ROTATE_SPEED))%std::f32::consts::TAU)}":
+    def value_of(f_):
+        """what the function returns, with naming lets read through and std constants by their own name"""
+        st_ = [s_ for s_ in f_["body"]["stmts"] if s_.get("k") != "Use"]
+        tail_ = A.stmt_expr(st_[-1]) if st_ and not st_[-1].get("semi", True) else None
+        return E.canon(tail_, E.let_env(st_[:-1])) if tail_ is not None else ""
+
+    if value_of(fn) == "((self.initial_yaw+((self.start.x-x)*ROTATE_SPEED))%TAU)":
         rule.ok("yaw = (initial + drag) mod one turn (the whole sum is wrapped)", file=GUI, line=fn["ln"])
     else:
         rule.bad("yaw", "RotateHandle::yaw must wrap the whole sum, i.e. (initial_yaw + delta) modulo TAU; found `%s`" % t, A.where(fn))
     fn = A.find_fn(GUI, "pitch", self_ty="RotateHandle", root=root)
     t = txt(fn["body"])
-    if t == "{(self.initial_pitch+((y-self.start.y)*ROTATE_SPEED)).clamp(0.0,std::f32::consts::PI)}":
+    if value_of(fn) == "(self.initial_pitch+((y-self.start.y)*ROTATE_SPEED)).clamp(0.0,PI)":
         rule.ok("pitch = clamp(initial + drag, 0, pi) (the whole sum is clamped)", file=GUI, line=fn["ln"])
     else:
         rule.bad("pitch", "RotateHandle::pitch must clamp the whole sum to [0, PI]; found `%s`" % t, A.where(fn))
@@ -229,6 +257,59 @@ def r5_handles(rule, root=None):
         rule.ok("begin_rotate records the current yaw and pitch under their own names")
     else:
         rule.bad("begin_rotate", "begin_rotate must record start, self.yaw as initial_yaw and self.pitch as initial_pitch; found %s" % f, A.where(fn))
+
+
+def _interact_paths_ok(fn):
+    """Canvas::interact, whatever the shape of its case analysis over the cursor state: on every path either
+    a drag is (idempotently) begun and continued with its flag OR-ed into the result, or the drag is ended;
+    the zoom flag is OR-ed in afterwards on every path and the accumulated flag is returned"""
+    body = fn["body"]
+    ms = [m for m in A.find(body, "Match") if A.ident(A.strip(m["e"])) == "cursor_state"]
+    if len(ms) != 1:
+        return False
+
+    def paths(n):
+        n = A.strip(n) if isinstance(n, dict) else n
+        k = n.get("k")
+        if k == "Match":
+            out = []
+            for arm in n["arms"]:
+                out += paths(arm["body"])
+            return out
+        if k == "If":
+            out = paths(n["then"])
+            out += paths(n["else"]) if n.get("else") is not None else [""]
+            return out
+        if k == "Block":
+            acc = [""]
+            for s_ in n["stmts"]:
+                e_ = A.strip(A.stmt_expr(s_) or {}) if s_.get("k") != "Let" else A.strip(s_.get("init") or {})
+                sub = paths(e_) if e_.get("k") in ("If", "Match", "Block") else [str(txt(s_))]
+                acc = [a_ + b_ for a_ in acc for b_ in sub]
+            return acc
+        return [str(txt(n))]
+
+    flag = None
+    for p in paths(ms[0]):
+        drag = re.search(r"\((\w+)\|=self\.drag\((\w+(?:\.\w+)?)\)\)", p)
+        end = "self.end_drag()" in p
+        if bool(drag) == end:
+            return False
+        if drag:
+            bd = re.search(r"self\.begin_drag\((\w+(?:\.\w+)?)", p)
+            if not bd or bd.start() > drag.start() or bd.group(1) != drag.group(2) or not drag.group(2).endswith("screen_pos"):
+                return False
+            if flag not in (None, drag.group(1)):
+                return False
+            flag = drag.group(1)
+    if flag is None:
+        return False
+    t_ = str(txt(A.value_view(body)))
+    zoom_after = re.search(r"\(%s\|=self\.zoom\(scroll,(.+?)\)\);%s\}$" % (flag, flag), t_)
+    if not zoom_after:
+        return False
+    pos = zoom_after.group(1)
+    return pos in ("pos_screen", "cursor_state.map(|cs|cs.screen_pos)") or bool(re.fullmatch(r"cursor_state\.map\(\|(\w+)\|\1\.screen_pos\)", pos))
 
 
 def r6_canvases(rule, root=None):
@@ -242,7 +323,7 @@ def r6_canvases(rule, root=None):
         else:
             rule.bad("%s|interact|size" % ty, "%s::interact must store the new image size before drag / zoom convert cursor positions with it" % ty, A.where(fn))
         t = txt(fn["body"])
-        if "(changed|=self.drag(cs.screen_pos));" in t and "(changed|=self.zoom(scroll,pos_screen));changed}" in t and t.count("self.end_drag();") == 2:
+        if ("(changed|=self.drag(cs.screen_pos));" in t and "(changed|=self.zoom(scroll,pos_screen));changed}" in t and t.count("self.end_drag();") == 2) or _interact_paths_ok(fn):
             rule.ok("%s::interact ORs the drag and zoom flags and ends the drag when the button is up or the cursor is gone" % ty)
         else:
             rule.bad("%s|interact|flags" % ty, "%s::interact must OR the flags of drag and zoom and end the drag on both no-drag paths" % ty, A.where(fn))
